@@ -236,4 +236,45 @@ Definition user_expo (var nugget lr : T) : userfns :=
          (fun r => var *! nexp O (nneg O (nabs O r /! lr)))
          (fun r => var *! (one -! nexp O (nneg O (nabs O r /! lr))) +! nugget).
 
+(* ---------- class table (driver entry points): class code, up to three optional arguments, dimension.
+   0 Gaussian 1 Exponential 2 Matern(nu) 3 Integral(nu) 4 Stable(alpha) 5 Rational(alpha) 6 Cubic 7 Linear
+   8 Circular 9 Spherical 10 HyperSpherical 11 SuperSpherical(nu) 12 JBessel(nu)
+   13 TPLGaussian(hurst, -, len_low) 14 TPLExponential(hurst, -, len_low) 15 TPLStable(hurst, alpha, len_low)
+   16 TPLSimple(nu) *)
+Definition is_tpl (cls : Z) : bool := (Z.leb 13 cls && Z.leb cls 15)%bool.
+Definition tpl_alpha (cls : Z) (p2 : T) : T :=
+  if Z.eqb cls 13 then two else if Z.eqb cls 14 then one else p2.
+Definition cor_of (cls : Z) (p1 p2 : T) (dim : Z) (h : T) : T :=
+  match cls with
+  | 0%Z => cor_gaussian h | 1%Z => cor_exponential h | 2%Z => cor_matern p1 h | 3%Z => cor_integral p1 h
+  | 4%Z => cor_stable p1 h | 5%Z => cor_rational p1 h | 6%Z => cor_cubic h | 7%Z => cor_linear h
+  | 8%Z => cor_circular h | 9%Z => cor_spherical h | 10%Z => cor_hyperspherical dim h
+  | 11%Z => cor_superspherical p1 h | 12%Z => cor_jbessel p1 h
+  | 13%Z | 14%Z | 15%Z => tpl_cor p1 (tpl_alpha cls p2) h
+  | _ => cor_tplsimple p1 h
+  end.
+(* the class as _init_subclass completes it, evaluated through the dispatch *)
+Definition class_fn (cls : Z) (p1 p2 p3 : T) (dim : Z) (var len_scale nugget rescale : T) (f : fn) (x : T) : option T :=
+  let lr := len_rescaled len_scale rescale in
+  let d := mkDef true (is_tpl cls) false false in
+  let u := mkUser (cor_of cls p1 p2 dim)
+                  (tpl_correlation len_scale rescale p3 p1 (tpl_alpha cls p2))
+                  (fun _ => zero) (fun _ => zero) in
+  derive d u var nugget lr f x.
+Definition get (o : option T) : T := match o with Some v => v | None => zero end.
+Definition class_get cls p1 p2 p3 dim var len nug resc f x : T := get (class_fn cls p1 p2 p3 dim var len nug resc f x).
+Definition intscale_of (cls : Z) (p1 lr : T) : option T :=
+  match cls with
+  | 0%Z => Some (intscale_gaussian lr) | 1%Z => Some (intscale_exponential lr) | 2%Z => Some (intscale_matern p1 lr)
+  | 3%Z => Some (intscale_integral p1 lr) | 4%Z => Some (intscale_stable p1 lr) | 5%Z => Some (intscale_rational p1 lr)
+  | _ => None
+  end.
+Definition set_intscale_of (cls : Z) (p1 rescale target : T) : option T :=
+  match intscale_of cls p1 one with
+  | None => None
+  | Some _ => set_integral_scale (fun len => get (intscale_of cls p1 (len_rescaled len rescale))) target
+  end.
+Definition user_of (shape : Z) (var nugget lr : T) : userfns :=
+  if Z.eqb shape 0 then user_gauss var nugget lr else user_expo var nugget lr.
+
 End Model.
